@@ -7,7 +7,7 @@
   Contents
   * `forM'_ok_inv`          partial-correctness loop rule (success is a hypothesis)
   * `ent`, `vf`, `WFn`      canonical entry functions of a matrix / vector
-  * `swapRows_spec`, `vswap_spec`, `maxAbsInColumn_range`, `partialPivot_spec`
+  * `swapRows_spec_ss`, `vswap_spec`, `maxAbsInColumn_range`, `partialPivot_spec`
   * `elimRow_spec`          pointwise description of one row elimination
   * `Sol`                   solution-set predicate; preserved by swaps and eliminations
   * `gauss_inv`             outer invariant of `gaussWithPivot`
@@ -121,7 +121,7 @@ section Generic
 variable [Add K] [Sub K] [Mul K] [Neg K] [Zero K] [One K] [BEq K] [ScalarExt K]
 
 /-- `swap_elem` on in-range positions of two rows, same column -/
-theorem swapElem_spec {m : Mat K} {r c : Nat} {e : Nat → Nat → K} (h : Is m r c e) {r1 r2 j : Nat}
+theorem swapElem_spec_ss {m : Mat K} {r c : Nat} {e : Nat → Nat → K} (h : Is m r c e) {r1 r2 j : Nat}
     (h1 : r1 < r) (h2 : r2 < r) (hj : j < c) :
     ∃ m', swapElem m r1 j r2 j = .ok m' ∧
       Is m' r c (fun a b => if b = j then (if a = r1 then e r2 j else if a = r2 then e r1 j else e a b)
@@ -144,7 +144,7 @@ theorem swapElem_spec {m : Mat K} {r c : Nat} {e : Nat → Nat → K} (h : Is m 
     · simp [hbj]
 
 /-- `swap_rows`: rows `r1` and `r2` are exchanged, nothing else changes -/
-theorem swapRows_spec {m : Mat K} {r c : Nat} {e : Nat → Nat → K} (h : Is m r c e) {r1 r2 : Nat}
+theorem swapRows_spec_ss {m : Mat K} {r c : Nat} {e : Nat → Nat → K} (h : Is m r c e) {r1 r2 : Nat}
     (h1 : r1 < r) (h2 : r2 < r) :
     ∃ m', swapRows m r1 r2 = .ok m' ∧
       Is m' r c (fun a b => if a = r1 then e r2 b else if a = r2 then e r1 b else e a b) := by
@@ -155,7 +155,7 @@ theorem swapRows_spec {m : Mat K} {r c : Nat} {e : Nat → Nat → K} (h : Is m 
       (if a = r1 then e r2 b else if a = r2 then e r1 b else e a b) else e a b))
     0 c m (fun m j => swapElem m r1 j r2 j) (Nat.zero_le _) (by simpa using h) (by
       intro k s _ hk hs
-      obtain ⟨s', hs', hI⟩ := swapElem_spec hs h1 h2 hk
+      obtain ⟨s', hs', hI⟩ := swapElem_spec_ss hs h1 h2 hk
       refine ⟨s', hs', ⟨hI.wf, hI.rows, hI.cols, ?_⟩⟩
       intro a b ha hb
       rw [hI.entry a b ha hb]
@@ -303,7 +303,7 @@ theorem partialPivot_spec {m : Mat K} {x : Array K} {n k : Nat} (hm : WFn m n) (
     have hr := maxAbsInColumn_range hp
     simp only [hp, bind, Except.bind] at h
     by_cases hpn : p < n
-    · obtain ⟨m1, hm1, hI⟩ := swapRows_spec hm.is hpn hk
+    · obtain ⟨m1, hm1, hI⟩ := swapRows_spec_ss hm.is hpn hk
       obtain ⟨x1, hx1, hs1, hv1⟩ := vswap_spec (x := x) (p := p) (k := k) (by omega) (by omega)
       simp only [hm1, hx1, pure, Except.pure] at h
       injection h with h
@@ -533,6 +533,64 @@ theorem Sol.of_elim {n i k : Nat} (hi : i < n) (hk : k < n) (hki : k ≠ i) (c :
     linear_combination h1
   · exact hrow a ha hai
 
+/-- converse of `Sol.of_swap` -/
+theorem Sol.to_swap {n p k : Nat} (hp : p < n) (hk : k < n) {e e' : Nat → Nat → K}
+    {y y' z : Nat → K}
+    (he : ∀ a b, a < n → b < n →
+      e' a b = if a = p then e k b else if a = k then e p b else e a b)
+    (hy : ∀ a, a < n → y' a = if a = k then y p else if a = p then y k else y a)
+    (h : Sol n e y z) : Sol n e' y' z := by
+  intro i hi
+  rw [hy i hi]
+  by_cases hip : i = p
+  · subst hip
+    have : (if i = k then y i else y k) = y k := by
+      by_cases hik : i = k <;> simp [hik]
+    simp only [if_true, this]
+    rw [← h k hk]
+    apply Finset.sum_congr rfl
+    intro j hj
+    rw [he i j hi (Finset.mem_range.1 hj)]
+    simp
+  · by_cases hik : i = k
+    · subst hik
+      simp only [if_true]
+      rw [← h p hp]
+      apply Finset.sum_congr rfl
+      intro j hj
+      rw [he i j hi (Finset.mem_range.1 hj)]
+      simp [hip]
+    · simp only [hip, hik, if_false]
+      rw [← h i hi]
+      apply Finset.sum_congr rfl
+      intro j hj
+      rw [he i j hi (Finset.mem_range.1 hj)]
+      simp [hip, hik]
+
+/-- converse of `Sol.of_elim` -/
+theorem Sol.to_elim {n i k : Nat} (hi : i < n) (hk : k < n) (hki : k ≠ i) (c : K)
+    {e e' : Nat → Nat → K} {y y' z : Nat → K}
+    (he : ∀ a b, a < n → b < n → e' a b = if a = i then e i b - c * e k b else e a b)
+    (hy : ∀ a, a < n → y' a = if a = i then y i - c * y k else y a)
+    (h : Sol n e y z) : Sol n e' y' z := by
+  intro a ha
+  rw [hy a ha]
+  by_cases hai : a = i
+  · subst hai
+    simp only [if_true]
+    rw [← h a ha, ← h k hk, Finset.mul_sum, ← Finset.sum_sub_distrib]
+    apply Finset.sum_congr rfl
+    intro j hj
+    rw [he a j ha (Finset.mem_range.1 hj)]
+    simp only [if_true]
+    ring
+  · simp only [hai, if_false]
+    rw [← h a ha]
+    apply Finset.sum_congr rfl
+    intro j hj
+    rw [he a j ha (Finset.mem_range.1 hj)]
+    simp [hai]
+
 /-- in an upper-triangular row the full row sum is the diagonal term plus the tail -/
 theorem sum_range_upper (f : Nat → K) {i n : Nat} (hi : i < n) (hz : ∀ j, j < i → f j = 0) :
     ∑ j ∈ Finset.range n, f j = f i + ∑ j ∈ Finset.Ico (i + 1) n, f j := by
@@ -561,15 +619,15 @@ theorem elimLoop_spec {n k : Nat} (hk : k < n) (a : Nat → Nat → K) (b : Nat 
     (h : forM' (k + 1) m.rows (m, x) (elimRow k) = .ok (m', x')) :
     WFn m' n ∧ x'.size = n ∧
       (1 ≤ k → BadP n k (ent m) → BadP n k (ent m')) ∧
-      (Good n k (ent m) → (∀ z, Sol n (ent m) (vf x) z → Sol n a b z) →
-        Good n (k + 1) (ent m') ∧ (∀ z, Sol n (ent m') (vf x') z → Sol n a b z)) := by
+      (Good n k (ent m) → (∀ z, Sol n (ent m) (vf x) z ↔ Sol n a b z) →
+        Good n (k + 1) (ent m') ∧ (∀ z, Sol n (ent m') (vf x') z ↔ Sol n a b z)) := by
   rw [hm.2.1] at h
   have key := forM'_ok_inv
     (fun t (s : Mat K × Array K) => WFn s.1 n ∧ s.2.size = n ∧
       (1 ≤ k → BadP n k (ent m) → BadP n k (ent s.1)) ∧
-      (Good n k (ent m) → (∀ z, Sol n (ent m) (vf x) z → Sol n a b z) →
+      (Good n k (ent m) → (∀ z, Sol n (ent m) (vf x) z ↔ Sol n a b z) →
         Good n k (ent s.1) ∧ (∀ i, k < i → i < t → ent s.1 i k = 0) ∧
-        (∀ z, Sol n (ent s.1) (vf s.2) z → Sol n a b z)))
+        (∀ z, Sol n (ent s.1) (vf s.2) z ↔ Sol n a b z)))
     (k + 1) n (m, x) (m', x') (elimRow k) (by omega) ?init ?step h
   case init =>
     refine ⟨hm, hx, fun _ hb => hb, fun hg hs => ⟨hg, ?_, hs⟩⟩
@@ -610,11 +668,12 @@ theorem elimLoop_spec {n k : Nat} (hk : k < n) (a : Nat → Nat → K) (b : Nat 
         · have c : ¬ (r = i ∧ k ≤ k) := by omega
           simp only [c, if_false]
           exact g2 r hr1 (by omega)
-      · intro z hz'
-        apply g3 z
-        refine Sol.of_elim hi2 hk hki (ent ms i k / ent ms k k) ?_ ?_ hz'
-        · intro r j hr hj
-          show ent m1 r j = _
+      · intro z
+        rw [← g3 z]
+        have he : ∀ r j, r < n → j < n → ent m1 r j =
+            if r = i then ent ms i j - (ent ms i k / ent ms k k) * ent ms k j
+            else ent ms r j := by
+          intro r j hr hj
           rw [he1 r j hr hj]
           by_cases hri : r = i
           · subst hri
@@ -623,9 +682,10 @@ theorem elimLoop_spec {n k : Nat} (hk : k < n) (a : Nat → Nat → K) (b : Nat 
             · have : ent ms k j = 0 := g1 k j hk (by omega) (by omega)
               simp [hkj, this]
           · simp [hri]
-        · intro r hr
-          show vf x1 r = _
-          rw [hv1 r]
+        have hy : ∀ r, r < n → vf x1 r =
+            if r = i then vf xs i - (ent ms i k / ent ms k k) * vf xs k else vf xs r :=
+          fun r _ => hv1 r
+        exact ⟨Sol.of_elim hi2 hk hki _ he hy, Sol.to_elim hi2 hk hki _ he hy⟩
   obtain ⟨k1, k2, k3, k4⟩ := key
   refine ⟨k1, k2, k3, ?_⟩
   intro hg hs
@@ -642,12 +702,12 @@ def Bad (n k : Nat) (e : Nat → Nat → K) : Prop :=
 
 /-- outer invariant of `gauss_with_pivot`, at its exit: either the fallback swap with row 0
     happened (`Bad`, the back substitution will then fail), or the matrix is in echelon form and
-    every solution of the reduced system solves the original one -/
+    the reduced system has the same solutions as the original one -/
 theorem gauss_spec {n : Nat} (hn : 1 ≤ n) {A m' : Mat K} {b x' : Array K} (hA : WFn A n)
     (hb : b.size = n) (h : gaussWithPivot A b = .ok (m', x')) :
     WFn m' n ∧ x'.size = n ∧
       (Bad n (n - 1) (ent m') ∨
-        (Good n (n - 1) (ent m') ∧ ∀ z, Sol n (ent m') (vf x') z → Sol n (ent A) (vf b) z)) := by
+        (Good n (n - 1) (ent m') ∧ ∀ z, Sol n (ent m') (vf x') z ↔ Sol n (ent A) (vf b) z)) := by
   unfold gaussWithPivot at h
   rw [hA.2.1] at h
   have hu : usub n 1 = .ok (n - 1) := by simp [usub, hn]
@@ -655,10 +715,10 @@ theorem gauss_spec {n : Nat} (hn : 1 ≤ n) {A m' : Mat K} {b x' : Array K} (hA 
   have key := forM'_ok_inv
     (fun k (s : Mat K × Array K) => WFn s.1 n ∧ s.2.size = n ∧
       (Bad n k (ent s.1) ∨
-        (Good n k (ent s.1) ∧ ∀ z, Sol n (ent s.1) (vf s.2) z → Sol n (ent A) (vf b) z)))
+        (Good n k (ent s.1) ∧ ∀ z, Sol n (ent s.1) (vf s.2) z ↔ Sol n (ent A) (vf b) z)))
     0 (n - 1) (A, b) (m', x') _ (Nat.zero_le _) ?init ?step h
   case init =>
-    refine ⟨hA, hb, Or.inr ⟨?_, fun z hz => hz⟩⟩
+    refine ⟨hA, hb, Or.inr ⟨?_, fun z => Iff.rfl⟩⟩
     intro i j _ hj; omega
   case step =>
     intro k s s1 _ hk ⟨hw, hsz, hinv⟩ hf
@@ -712,9 +772,10 @@ theorem gauss_spec {n : Nat} (hn : 1 ≤ n) {A m' : Mat K} {b x' : Array K} (hA 
               · subst hik
                 simp only [hip, if_false, if_true]; exact hg p j hpn hj (by omega)
               · simp only [hip, hik, if_false]; exact hg i j hi hj hji
-          · intro z hz
-            apply hs z
-            exact Sol.of_swap hpn hkn he1 (fun r _ => hv1 r) hz
+          · intro z
+            rw [← hs z]
+            exact ⟨Sol.of_swap hpn hkn he1 (fun r _ => hv1 r),
+              Sol.to_swap hpn hkn he1 (fun r _ => hv1 r)⟩
         · -- fallback to row 0 with k ≥ 1
           left
           have hp0 : p = 0 := by omega
@@ -736,12 +797,42 @@ theorem gauss_spec {n : Nat} (hn : 1 ≤ n) {A m' : Mat K} {b x' : Array K} (hA 
             exact hg i 0 hi2 (by omega) (by omega)
   exact key
 
-/-- **Soundness of `solve_basic`** in terms of the canonical entry functions: whenever a value
-    is returned it has length `n` and solves the system. No pivot hypothesis: a vanishing pivot
-    makes a division fail, which is the error branch. -/
-theorem solveBasic_sound_ent {n : Nat} (hn : 1 ≤ n) {A : Mat K} {b x : Array K} (hA : WFn A n)
+/-- an upper-triangular system with non-zero diagonal has at most one solution -/
+theorem tri_unique {n : Nat} {e : Nat → Nat → K} {y z z' : Nat → K}
+    (hg : ∀ i j, i < n → j < i → e i j = 0) (hd : ∀ i, i < n → e i i ≠ 0)
+    (h : Sol n e y z) (h' : Sol n e y z') : ∀ i, i < n → z i = z' i := by
+  have key : ∀ d i, i < n → n - i = d → z i = z' i := by
+    intro d
+    induction d using Nat.strong_induction_on with
+    | _ d ih =>
+      intro i hi hd'
+      have e1 := h i hi
+      have e2 := h' i hi
+      rw [sum_range_upper (fun j => e i j * z j) hi
+        (by intro j hj; simp only [hg i j hi hj, zero_mul])] at e1
+      rw [sum_range_upper (fun j => e i j * z' j) hi
+        (by intro j hj; simp only [hg i j hi hj, zero_mul])] at e2
+      have e3 : ∑ j ∈ Finset.Ico (i + 1) n, e i j * z j =
+          ∑ j ∈ Finset.Ico (i + 1) n, e i j * z' j := by
+        apply Finset.sum_congr rfl
+        intro j hj
+        obtain ⟨hj1, hj2⟩ := Finset.mem_Ico.1 hj
+        rw [ih (n - j) (by omega) j hj2 rfl]
+      have e4 : e i i * z i = e i i * z' i := by
+        rw [e3] at e1
+        exact add_right_cancel (e1.trans e2.symm)
+      exact mul_left_cancel₀ (hd i hi) e4
+  intro i hi
+  exact key (n - i) i hi rfl
+
+/-- what a successful `solve_basic` has established: a triangular system with non-zero
+    diagonal, equivalent to the original one, which the returned vector solves row by row -/
+theorem solveBasic_char {n : Nat} (hn : 1 ≤ n) {A : Mat K} {b x : Array K} (hA : WFn A n)
     (hb : b.size = n) (h : solveBasic A b = .ok x) :
-    x.size = n ∧ Sol n (ent A) (vf b) (vf x) := by
+    ∃ (m' : Mat K) (x' : Array K), x.size = n ∧
+      (∀ i j, i < n → j < i → ent m' i j = 0) ∧ (∀ i, i < n → ent m' i i ≠ 0) ∧
+      (∀ z, Sol n (ent m') (vf x') z ↔ Sol n (ent A) (vf b) z) ∧
+      Sol n (ent m') (vf x') (vf x) := by
   unfold solveBasic at h
   have h1 : ¬ A.rows ≠ b.size := by rw [hA.2.1, hb]; simp
   have h2 : ¬ A.rows ≠ A.cols := by rw [hA.2.1, hA.2.2]; simp
@@ -754,10 +845,10 @@ theorem solveBasic_sound_ent {n : Nat} (hn : 1 ≤ n) {A : Mat K} {b x : Array K
     simp only at h
     obtain ⟨hw, hsz, hinv⟩ := gauss_spec hn hA hb hg
     obtain ⟨hxs, hbs⟩ := backsolve_spec hw hsz hn h
-    refine ⟨hxs, ?_⟩
     rcases hinv with ⟨_, b1, _⟩ | ⟨hg', hs⟩
     · exact absurd b1 (hbs 0 (by omega)).1
-    · apply hs
+    · refine ⟨m', x', hxs, fun i j hi hj => hg' i j hi (by omega) hj,
+        fun i hi => (hbs i hi).1, hs, ?_⟩
       intro i hi
       obtain ⟨_, hrow⟩ := hbs i hi
       rw [sum_range_upper (fun j => ent m' i j * vf x j) hi]
@@ -765,6 +856,22 @@ theorem solveBasic_sound_ent {n : Nat} (hn : 1 ≤ n) {A : Mat K} {b x : Array K
       · intro j hj
         have : ent m' i j = 0 := hg' i j hi (by omega) hj
         simp [this]
+
+/-- **Soundness of `solve_basic`** in terms of the canonical entry functions: whenever a value
+    is returned it has length `n` and solves the system. No pivot hypothesis: a vanishing pivot
+    makes a division fail, which is the error branch. -/
+theorem solveBasic_sound_ent {n : Nat} (hn : 1 ≤ n) {A : Mat K} {b x : Array K} (hA : WFn A n)
+    (hb : b.size = n) (h : solveBasic A b = .ok x) :
+    x.size = n ∧ Sol n (ent A) (vf b) (vf x) := by
+  obtain ⟨m', x', hxs, _, _, hs, hsol⟩ := solveBasic_char hn hA hb h
+  exact ⟨hxs, (hs _).1 hsol⟩
+
+/-- a successful `solve_basic` certifies that the system has no other solution -/
+theorem solveBasic_unique_ent {n : Nat} (hn : 1 ≤ n) {A : Mat K} {b x : Array K} (hA : WFn A n)
+    (hb : b.size = n) (h : solveBasic A b = .ok x) (z : Nat → K)
+    (hz : Sol n (ent A) (vf b) z) : ∀ j, j < n → z j = vf x j := by
+  obtain ⟨m', x', _, hg, hd, hs, hsol⟩ := solveBasic_char hn hA hb h
+  exact tri_unique hg hd ((hs z).2 hz) hsol
 
 /-! ### in-place LU: the row invariant
 
@@ -1009,6 +1116,444 @@ theorem luElimLoop_spec {l l' : Mat K} {n i : Nat} (pa : Nat → Nat → K) (hl 
     have c2 : min r (i + 1) = min r i := by omega
     simp only [c1, if_false] at this
     rw [c2]; exact this
+
+/-- row `r` of `P·A`, `P` the recorded permutation matrix -/
+def PA (n : Nat) (perm : Mat K) (a : Nat → Nat → K) (r c : Nat) : K :=
+  ∑ t ∈ Finset.range n, ent perm r t * a t c
+/-- component `r` of `P·b` -/
+def Pb (n : Nat) (perm : Mat K) (y : Nat → K) (r : Nat) : K :=
+  ∑ t ∈ Finset.range n, ent perm r t * y t
+
+/-- invariant of `lu_decomp_in_place` after `i` column steps -/
+structure LUInv (n : Nat) (a : Nat → Nat → K) (y : Nat → K) (i : Nat) (s : LU K) : Prop where
+  lu : WFn s.lu n
+  perm : WFn s.perm n
+  sol : ∀ z, Sol n (PA n s.perm a) (Pb n s.perm y) z → Sol n a y z
+  row : ∀ r, r < n → LURow n (PA n s.perm a) (ent s.lu) r (min r i)
+
+/-- exchanging rows `i ≤ imax` of both the working matrix and the permutation keeps the
+    invariant -/
+theorem LUInv.swap {n i imax : Nat} {a : Nat → Nat → K} {y : Nat → K} {s : LU K} {p l : Mat K}
+    (hi : i < n) (hge : i ≤ imax) (hs : LUInv n a y i s)
+    (hp : swapRows s.perm i imax = .ok p) (hl : swapRows s.lu i imax = .ok l) (pv : Nat) :
+    LUInv n a y i { lu := l, perm := p, pivots := pv } := by
+  have himax : imax < n := by
+    by_contra hcon
+    have : s.lu.rows ≤ imax := by rw [hs.lu.2.1]; omega
+    simp [swapRows, this] at hl
+  obtain ⟨p', hp', hIp⟩ := swapRows_spec_ss hs.perm.is hi himax
+  obtain ⟨l', hl', hIl⟩ := swapRows_spec_ss hs.lu.is hi himax
+  rw [hp] at hp'; rw [hl] at hl'
+  injection hp' with hp'; injection hl' with hl'
+  subst hp'; subst hl'
+  have hPA : ∀ r c, r < n → PA n p a r c =
+      if r = i then PA n s.perm a imax c else if r = imax then PA n s.perm a i c
+      else PA n s.perm a r c := by
+    intro r c hr
+    unfold PA
+    by_cases h1 : r = i
+    · simp only [h1, if_true]
+      apply Finset.sum_congr rfl
+      intro t ht
+      rw [hIp.ent_eq hi (Finset.mem_range.1 ht)]; simp
+    · by_cases h2 : r = imax
+      · subst h2
+        simp only [h1, if_true, if_false]
+        apply Finset.sum_congr rfl
+        intro t ht
+        rw [hIp.ent_eq himax (Finset.mem_range.1 ht)]
+        simp [h1]
+      · simp only [h1, h2, if_false]
+        apply Finset.sum_congr rfl
+        intro t ht
+        rw [hIp.ent_eq hr (Finset.mem_range.1 ht)]
+        simp [h1, h2]
+  have hPb : ∀ r, r < n → Pb n p y r =
+      if r = imax then Pb n s.perm y i else if r = i then Pb n s.perm y imax
+      else Pb n s.perm y r := by
+    intro r hr
+    unfold Pb
+    by_cases h1 : r = i
+    · subst h1
+      by_cases h2 : r = imax
+      · subst h2
+        simp only [if_true]
+        apply Finset.sum_congr rfl
+        intro t ht
+        rw [hIp.ent_eq hi (Finset.mem_range.1 ht)]; simp
+      · simp only [h2, if_true, if_false]
+        apply Finset.sum_congr rfl
+        intro t ht
+        rw [hIp.ent_eq hi (Finset.mem_range.1 ht)]; simp
+    · by_cases h2 : r = imax
+      · simp only [h2, if_true]
+        apply Finset.sum_congr rfl
+        intro t ht
+        rw [hIp.ent_eq himax (Finset.mem_range.1 ht)]
+        have : ¬ imax = i := by omega
+        simp [this]
+      · simp only [h1, h2, if_false]
+        apply Finset.sum_congr rfl
+        intro t ht
+        rw [hIp.ent_eq hr (Finset.mem_range.1 ht)]
+        simp [h1, h2]
+  refine ⟨hIl.wfn, hIp.wfn, ?_, ?_⟩
+  · intro z hz
+    apply hs.sol z
+    exact Sol.of_swap hi himax (fun r c hr _ => hPA r c hr) hPb hz
+  · intro r hr
+    show LURow n (PA n p a) (ent l) r (min r i)
+    have hup : ∀ t c, t < min r i → c < n → ent l t c = ent s.lu t c := by
+      intro t c ht hc
+      rw [hIl.ent_eq (by omega) hc]
+      have c1 : ¬ t = i := by omega
+      have c2 : ¬ t = imax := by omega
+      simp only [c1, c2, if_false]
+    by_cases h1 : r = i
+    · subst h1
+      have := hs.row imax himax
+      have e1 : min imax r = min r r := by omega
+      rw [e1] at this
+      refine LURow.transfer (by omega) ?_ ?_ hup this
+      · intro c hc; rw [hPA r c hr]; simp
+      · intro c hc; rw [hIl.ent_eq hr hc]; simp
+    · by_cases h2 : r = imax
+      · subst h2
+        have := hs.row i hi
+        have e1 : min i i = min r i := by omega
+        rw [e1] at this
+        refine LURow.transfer (by omega) ?_ ?_ hup this
+        · intro c hc; rw [hPA r c hr]; simp [h1]
+        · intro c hc; rw [hIl.ent_eq hr hc]; simp [h1]
+      · refine LURow.transfer (by omega) ?_ ?_ hup (hs.row r hr)
+        · intro c hc; rw [hPA r c hr]; simp [h1, h2]
+        · intro c hc; rw [hIl.ent_eq hr hc]; simp [h1, h2]
+
+/-- the elimination rows of a column step re-establish the invariant one column further -/
+theorem LUInv.elim {n i : Nat} {a : Nat → Nat → K} {y : Nat → K} {s : LU K} {l' : Mat K}
+    (hi : i < n) (hs : LUInv n a y i s)
+    (h : forM' (i + 1) s.lu.rows s.lu (luElimRow i) = .ok l') :
+    LUInv n a y (i + 1) { lu := l', perm := s.perm, pivots := s.pivots } := by
+  obtain ⟨hw, hr⟩ := luElimLoop_spec (PA n s.perm a) hs.lu hi hs.row h
+  exact ⟨hw, hs.perm, hs.sol, hr⟩
+
+/-- a skipped column (all candidates zero) -/
+theorem LUInv.skip {n i : Nat} {a : Nat → Nat → K} {y : Nat → K} {s : LU K}
+    (hi : i < n) (hs : LUInv n a y i s) (hz : ∀ k, i ≤ k → k < n → ent s.lu k i = 0) :
+    LUInv n a y (i + 1) s := by
+  refine ⟨hs.lu, hs.perm, hs.sol, ?_⟩
+  intro r hr
+  by_cases hir : i < r
+  · have c1 : min r (i + 1) = i + 1 := by omega
+    have c2 : min r i = i := by omega
+    have := hs.row r hr
+    rw [c2] at this
+    rw [c1]
+    refine LURow.elim hi hir 0 ?_ (fun _ _ _ _ => rfl) ?_ this
+    · intro c hc
+      by_cases hci : c = i
+      · subst hci; simp only [if_true]; exact hz r (by omega) hr
+      · simp [hci]
+    · rw [hz r (by omega) hr]; ring
+  · have c2 : min r (i + 1) = min r i := by omega
+    rw [c2]; exact hs.row r hr
+
+theorem luStep_spec [IsStrictOrderedRing K] {n i : Nat} {a : Nat → Nat → K} {y : Nat → K}
+    {s s' : LU K} (hi : i < n) (hs : LUInv n a y i s) (h : luStep s i = .ok s') :
+    LUInv n a y (i + 1) s' := by
+  unfold luStep at h
+  cases hp : luPivot s.lu i with
+  | error e => simp [hp, bind, Except.bind] at h
+  | ok r =>
+    obtain ⟨maxA, imax⟩ := r
+    obtain ⟨hge, hzero⟩ := luPivot_spec hs.lu hi hp
+    simp only [hp, bind, Except.bind] at h
+    by_cases hmax : maxA = 0
+    · have : (maxA == 0) = true := by simp [hmax]
+      simp only [this, if_true, pure, Except.pure] at h
+      injection h with h
+      subst h
+      exact hs.skip hi (hzero hmax)
+    · have : ¬ (maxA == 0) = true := by simp [hmax]
+      simp only [this, if_false] at h
+      by_cases him : imax = i
+      · have c : ¬ (imax ≠ i) := by simp [him]
+        simp only [c, if_false, pure, Except.pure] at h
+        cases hl : forM' (i + 1) s.lu.rows s.lu (luElimRow i) with
+        | error e => rw [hl] at h; simp at h
+        | ok l' =>
+          rw [hl] at h
+          injection h with h
+          subst h
+          exact hs.elim hi hl
+      · have c : imax ≠ i := him
+        simp only [c, if_true, ne_eq, not_false_eq_true, pure, Except.pure] at h
+        cases hpp : swapRows s.perm i imax with
+        | error e => rw [hpp] at h; simp at h
+        | ok p =>
+          cases hll : swapRows s.lu i imax with
+          | error e => rw [hpp, hll] at h; simp at h
+          | ok l =>
+            rw [hpp, hll] at h
+            simp only at h
+            have hs1 := hs.swap hi hge hpp hll (s.pivots + 1)
+            cases hl : forM' (i + 1) l.rows l (luElimRow i) with
+            | error e => rw [hl] at h; simp at h
+            | ok l' =>
+              rw [hl] at h
+              injection h with h
+              subst h
+              exact hs1.elim hi hl
+
+/-- `Matrix::eye(n)` -/
+theorem eye_spec_ss (n : Nat) :
+    ∃ p : Mat K, eye n = .ok p ∧ Is p n n (fun i j => if i = j then 1 else 0) := by
+  unfold eye
+  obtain ⟨p, hp, hP⟩ := forM'_inv
+    (fun k (s : Mat K) => Is s n n (fun i j => if i = j ∧ i < k then (1 : K) else 0))
+    0 n (Mat.new n n (0 : K)) (fun m i => m.set i i 1) (Nat.zero_le _)
+    (by simpa using Is.of_new n n (0 : K)) (by
+      intro k s _ hk hs
+      obtain ⟨s', hs', hI⟩ := hs.set hk hk (1 : K)
+      refine ⟨s', hs', ⟨hI.wf, hI.rows, hI.cols, ?_⟩⟩
+      intro a b ha hb
+      rw [hI.entry a b ha hb]
+      congr 1
+      by_cases hab : a = k ∧ b = k
+      · obtain ⟨rfl, rfl⟩ := hab; simp
+      · by_cases hab' : a = b
+        · subst hab'
+          have : ¬ a = k := fun e => hab ⟨e, e⟩
+          have e1 : (a < k + 1) = (a < k) := by apply propext; omega
+          simp only [this, and_self, if_false, true_and, e1]
+        · simp [hab, hab'])
+  refine ⟨p, hp, ⟨hP.wf, hP.rows, hP.cols, ?_⟩⟩
+  intro a b ha hb
+  rw [hP.entry a b ha hb]
+  congr 1
+  by_cases hab : a = b
+  · simp [hab, hb]
+  · simp [hab]
+
+/-- **`lu_decomp_in_place`**: whenever it returns, `P·A = L·U` row by row (`LURow … r r`), and
+    the permuted system `P·A z = P·b` has no more solutions than `A z = b`. -/
+theorem luDecomp_spec [IsStrictOrderedRing K] {n : Nat} {A : Mat K} (y : Nat → K) {s : LU K}
+    (hA : WFn A n) (h : luDecomp A = .ok s) : LUInv n (ent A) y n s := by
+  unfold luDecomp at h
+  have h2 : ¬ A.rows ≠ A.cols := by rw [hA.2.1, hA.2.2]; simp
+  obtain ⟨p, hp, hIp⟩ := eye_spec_ss (K := K) n
+  simp only [h2, if_false] at h
+  simp only [hA.2.1, hp, bind, Except.bind] at h
+  have hPA : ∀ r c, r < n → PA n p (ent A) r c = ent A r c := by
+    intro r c hr
+    unfold PA
+    have : ∀ t ∈ Finset.range n, ent p r t * ent A t c = if r = t then ent A t c else 0 := by
+      intro t ht
+      rw [hIp.ent_eq hr (Finset.mem_range.1 ht)]
+      by_cases hrt : r = t <;> simp [hrt]
+    rw [Finset.sum_congr rfl this, Finset.sum_ite_eq]
+    simp [hr]
+  have hPb : ∀ r, r < n → Pb n p y r = y r := by
+    intro r hr
+    unfold Pb
+    have : ∀ t ∈ Finset.range n, ent p r t * y t = if r = t then y t else 0 := by
+      intro t ht
+      rw [hIp.ent_eq hr (Finset.mem_range.1 ht)]
+      by_cases hrt : r = t <;> simp [hrt]
+    rw [Finset.sum_congr rfl this, Finset.sum_ite_eq]
+    simp [hr]
+  have key := forM'_ok_inv (fun i (s : LU K) => LUInv n (ent A) y i s)
+    0 n { lu := A, perm := p, pivots := 0 } s luStep (Nat.zero_le _) ?init ?step h
+  case init =>
+    refine ⟨hA, hIp.wfn, ?_, ?_⟩
+    · intro z hz i hi
+      have := hz i hi
+      rw [hPb i hi] at this
+      rw [← this]
+      apply Finset.sum_congr rfl
+      intro j hj
+      rw [hPA i j hi]
+    · intro r hr c hc
+      show PA n p (ent A) r c = _
+      rw [hPA r c hr]
+      simp
+  case step =>
+    intro i s s1 _ hi hs hf
+    exact luStep_spec hi hs hf
+  exact key
+
+/-! ### `P·b`, forward substitution, and the LU solver -/
+
+theorem foldl_map_range (g : Nat → K) : ∀ c : Nat,
+    ((List.range c).map g).foldl (· + ·) 0 = ∑ t ∈ Finset.range c, g t
+  | 0 => by simp
+  | c + 1 => by
+    rw [List.range_succ, List.map_append, List.foldl_append, foldl_map_range g c,
+      Finset.sum_range_succ]
+    simp
+
+theorem dot_lists (f g : Nat → K) (c : Nat) :
+    (Array.zipWith (· * ·) ((List.range c).map f).toArray ((List.range c).map g).toArray).foldl
+      (· + ·) 0 = ∑ t ∈ Finset.range c, f t * g t := by
+  rw [← foldl_map_range]
+  simp [List.zipWith_map]
+
+theorem array_eq_map_vf (v : Array K) : v = ((List.range v.size).map (vf v)).toArray := by
+  apply Array.ext
+  · simp
+  · intro i h1 h2
+    simp [vf, h1]
+
+/-- `multiply` (matrix · vector) as a finite sum -/
+theorem mulVec_sum {m : Mat K} {n : Nat} (hm : WFn m n) {v : Array K} (hv : v.size = n) :
+    ∃ w, mulVec m v = .ok w ∧ w.size = n ∧
+      ∀ r, r < n → vf w r = ∑ t ∈ Finset.range n, ent m r t * vf v t := by
+  refine ⟨_, mulVec_spec hm.is v hv, by simp, ?_⟩
+  intro r hr
+  have e : v = ((List.range n).map (vf v)).toArray := by
+    have := array_eq_map_vf v
+    rw [hv] at this
+    exact this
+  simp only [vf, List.getElem?_toArray, List.getElem?_map, List.getElem?_range hr, Option.map_some,
+    Option.getD_some]
+  rw [e, dot_lists, ← e]
+  rfl
+
+/-- unit-lower forward substitution: total, `y_r = x_r − Σ_{t<r} l_{rt} y_t` -/
+theorem forwardSub_spec {m : Mat K} {n : Nat} (hm : WFn m n) {x : Array K} (hx : x.size = n) :
+    ∃ y, forwardSub m x = .ok y ∧ y.size = n ∧
+      ∀ r, r < n → vf y r = vf x r - ∑ t ∈ Finset.range r, ent m r t * vf y t := by
+  unfold forwardSub
+  rw [hm.2.1]
+  obtain ⟨y, hy, hP⟩ := forM'_inv
+    (fun i (u : Array K) => u.size = n ∧
+      (∀ r, r < i → r < n → vf u r = vf x r - ∑ t ∈ Finset.range r, ent m r t * vf u t) ∧
+      (∀ r, i ≤ r → vf u r = vf x r))
+    0 n x (fun x i =>
+      forM' 0 i x (fun x k => do
+        let xk ← aget x k
+        let xi ← aget x i
+        let ik ← m.get i k
+        aset x i (xi - ik * xk))) (Nat.zero_le _)
+    ⟨hx, by intro r h; omega, fun _ _ => rfl⟩ (by
+      intro i u _ hi ⟨hu, hdone, hrest⟩
+      obtain ⟨w, hw, hQ⟩ := forM'_inv
+        (fun k (w : Array K) => w.size = n ∧ ∀ a, vf w a =
+          if a = i then vf u i - ∑ t ∈ Finset.range k, ent m i t * vf u t else vf u a)
+        0 i u (fun x k => do
+          let xk ← aget x k
+          let xi ← aget x i
+          let ik ← m.get i k
+          aset x i (xi - ik * xk)) (Nat.zero_le _)
+        ⟨hu, by intro a; by_cases h : a = i <;> simp [h]⟩ (by
+          intro k w _ hk ⟨hw, hv⟩
+          have hkw : k < w.size := by omega
+          have hiw : i < w.size := by omega
+          refine ⟨w.setIfInBounds i (vf w i - ent m i k * vf w k), ?_, by simpa using hw, ?_⟩
+          · simp only [aget_vf hkw, aget_vf hiw, hm.get hi (show k < n by omega), bind, Except.bind]
+            exact aset_ok _ hiw
+          · intro a
+            rw [vf_set _ hiw]
+            by_cases hai : a = i
+            · subst hai
+              have hka : ¬ k = a := by omega
+              simp only [if_true]
+              rw [hv a, hv k, Finset.sum_range_succ]
+              simp only [if_true, hka, if_false]
+              ring
+            · simp only [hai, if_false]
+              rw [hv a]; simp [hai])
+      obtain ⟨hw1, hw2⟩ := hQ
+      refine ⟨w, hw, hw1, ?_, ?_⟩
+      · intro r hr1 hr2
+        have hsum : ∀ q, q ≤ i → ∑ t ∈ Finset.range q, ent m q t * vf w t =
+            ∑ t ∈ Finset.range q, ent m q t * vf u t := by
+          intro q hq
+          apply Finset.sum_congr rfl
+          intro t ht
+          have : ¬ t = i := by have := Finset.mem_range.1 ht; omega
+          rw [hw2 t]; simp only [this, if_false]
+        by_cases hri : r = i
+        · subst hri
+          rw [hw2 r, hsum r (Nat.le_refl _), hrest r (Nat.le_refl _)]
+          simp
+        · rw [hw2 r, hsum r (by omega)]
+          simp only [hri, if_false]
+          exact hdone r (by omega) hr2
+      · intro r hr
+        have : ¬ r = i := by omega
+        rw [hw2 r]; simp only [this, if_false]
+        exact hrest r (by omega))
+  exact ⟨y, hy, hP.1, fun r hr => hP.2.1 r hr hr⟩
+
+/-- the upper-triangular row sum written with an indicator -/
+theorem sum_upper_ind (f : Nat → K) {t n : Nat} (ht : t < n) :
+    ∑ c ∈ Finset.range n, (if t ≤ c then f c else 0) =
+      f t + ∑ c ∈ Finset.Ico (t + 1) n, f c := by
+  rw [sum_range_upper (fun c => if t ≤ c then f c else 0) ht]
+  · simp only [Nat.le_refl, if_true]
+    congr 1
+    apply Finset.sum_congr rfl
+    intro c hc
+    have : t ≤ c := by have := (Finset.mem_Ico.1 hc).1; omega
+    simp only [this, if_true]
+  · intro j hj
+    have : ¬ t ≤ j := by omega
+    simp only [this, if_false]
+
+/-- **Soundness of `solve_lu`** in terms of the canonical entry functions. -/
+theorem solveLU_sound_ent [IsStrictOrderedRing K] {n : Nat} (hn : 1 ≤ n) {A : Mat K}
+    {b x : Array K} (hA : WFn A n) (hb : b.size = n) (h : solveLU A b = .ok x) :
+    x.size = n ∧ Sol n (ent A) (vf b) (vf x) := by
+  unfold solveLU at h
+  have h1 : ¬ A.rows ≠ b.size := by rw [hA.2.1, hb]; simp
+  have h2 : ¬ A.rows ≠ A.cols := by rw [hA.2.1, hA.2.2]; simp
+  simp only [h1, h2, if_false] at h
+  cases hd : luDecomp A with
+  | error e => simp [hd, bind, Except.bind] at h
+  | ok s =>
+    have hs := luDecomp_spec (vf b) hA hd
+    obtain ⟨w, hw, hwn, hwv⟩ := mulVec_sum hs.perm hb
+    obtain ⟨y, hy, hyn, hyv⟩ := forwardSub_spec hs.lu hwn
+    simp only [hd, hw, hy, bind, Except.bind] at h
+    obtain ⟨hxs, hbs⟩ := backsolve_spec hs.lu hyn hn h
+    refine ⟨hxs, ?_⟩
+    apply hs.sol
+    intro r hr
+    have hU : ∀ t, t < n →
+        ∑ c ∈ Finset.range n, (if t ≤ c then ent s.lu t c * vf x c else 0) = vf y t := by
+      intro t ht
+      rw [sum_upper_ind (fun c => ent s.lu t c * vf x c) ht]
+      exact (hbs t ht).2
+    have hrow := hs.row r hr
+    have hmin : min r n = r := by omega
+    rw [hmin] at hrow
+    have e1 : ∀ c ∈ Finset.range n, PA n s.perm (ent A) r c * vf x c =
+        (∑ t ∈ Finset.range r, ent s.lu r t *
+            (if t ≤ c then ent s.lu t c * vf x c else 0)) +
+          (if r ≤ c then ent s.lu r c * vf x c else 0) := by
+      intro c hc
+      rw [hrow c (Finset.mem_range.1 hc), add_mul, Finset.sum_mul]
+      congr 1
+      · apply Finset.sum_congr rfl
+        intro t _
+        by_cases htc : t ≤ c
+        · simp only [htc, if_true]; ring
+        · simp only [htc, if_false]; ring
+      · by_cases hrc : r ≤ c
+        · have : ¬ c < r := by omega
+          simp only [hrc, this, if_true, if_false]
+        · have : c < r := by omega
+          simp only [hrc, this, if_true, if_false]; ring
+    rw [Finset.sum_congr rfl e1, Finset.sum_add_distrib, Finset.sum_comm, hU r hr]
+    have e2 : ∀ t ∈ Finset.range r,
+        ∑ c ∈ Finset.range n, ent s.lu r t * (if t ≤ c then ent s.lu t c * vf x c else 0) =
+          ent s.lu r t * vf y t := by
+      intro t ht
+      rw [← Finset.mul_sum, hU t (by have := Finset.mem_range.1 ht; omega)]
+    rw [Finset.sum_congr rfl e2, hyv r hr, hwv r hr]
+    unfold Pb
+    ring
 
 end Exact
 end Mat
